@@ -840,3 +840,7 @@ mod tests {
         TunnResult::Done
     }
 }
+
+#[cfg(kani)]
+#[path = "/verif/kani/snap_dataplane/c08_reply.rs"]
+mod verif_c08_reply;
